@@ -5,6 +5,22 @@ HERE = os.path.dirname(os.path.dirname(os.path.abspath(__file__)))
 ALL = ["C%02d" % i for i in range(1, 21)]
 
 CHECKS = {
+ "C12": dict(
+  category="model_checking",
+  text="Sync.tla: three files (class, method inside a class, argparse function), each missing / empty / holding one of three "
+       "mutually different interfaces with or without surrounding code; Sync(truth) repeated 1..3 times; TLC checks AllEquivalent, "
+       "TruthUnchanged, AroundUnchanged (invariants) and SecondRunNoop (action property) over all 504 (triple, truth) behaviours, "
+       "ideal and as built. Binding: every behaviour (seeded 220 in quick, all 504 in thorough) is laid out as three real files -- "
+       "targets emitted by the real emitters, surrounded by unrelated imports, a function before and a class after -- and the real "
+       "sync command runs in-process 2 (quick) / 3 (thorough) times; after every run each target is re-parsed by the matching real "
+       "parser and compared with the truth's interface (names, order, types, defaults, descriptions), the code outside the named "
+       "targets and the truth's own interface are compared with their originals, and the bytes after run n+1 with those after run n.",
+  design_ref="DESIGN.md section 4, C12",
+  note="Trusted: the three fixed interfaces (common representable domain) and the AST projection of 'code outside the named targets'. "
+       "Function/argparse targets are never rewritten today (listed finding pinned by the repository's own tests), so for those the "
+       "check only proves that nothing else happens to them.",
+  technique="TLA+ file-state machine with an action property checked by TLC; every behaviour replayed through the real command run "
+            "repeatedly, targets re-parsed with the real parsers"),
  "C15": dict(
   category="model_checking",
   text="DocSplit.tla: a docstring as a sequence of line records (prose with opaque ids, blank, indented prose, doctest, section "
